@@ -70,6 +70,14 @@ class Obligation:
         self.instances = []
 
 
+def Not_(t):
+    if z3.is_true(t):
+        return z3.BoolVal(False)
+    if z3.is_false(t):
+        return z3.BoolVal(True)
+    return z3.Not(t)
+
+
 def lit_seq(pyval, kind):
     vals = [ord(c) for c in pyval] if isinstance(pyval, str) else list(pyval)
     t = IS.empty
@@ -356,6 +364,25 @@ class Engine:
             return z3.BoolVal(False)
         raise Unsupported(f"== between {a!r} and {b!r}")
 
+    def named(self, st, v, hint="t"):
+        """Give complex terms (anything with an if-then-else inside) a name, so they can occur in patterns."""
+        from .values import has_ite
+        if isinstance(v, VInt) and has_ite(v.t):
+            c = fresh(hint, I)
+            st.assume(c == v.t)
+            return VInt(c)
+        if isinstance(v, VSeq) and v.py is None and z3.is_app(v.t) and v.t.num_args() > 0:
+            c = fresh(hint, ISq)
+            st.assume(c == v.t)
+            return VSeq(c, v.kind)
+        if isinstance(v, VList) and z3.is_app(v.t) and v.t.num_args() > 0 and has_ite(v.t):
+            c = fresh(hint, VSq)
+            st.assume(c == v.t)
+            return VList(c, v.et, v.kind)
+        if isinstance(v, VTuple):
+            return VTuple([self.named(st, x, hint) for x in v.items])
+        return v
+
     def as_int(self, st, v, node=None):
         v = self.deref(st, v)
         if isinstance(v, VInt):
@@ -545,9 +572,12 @@ class Engine:
         for s, c in self.ev(e.test, st):
             ct = self.truth(s, c)
             if self.spec_mode:
-                a = self.ev1(e.body, s)
-                b = self.ev1(e.orelse, s)
-                out.append((s, ite_val(ct, a, b)))
+                if z3.is_true(ct):
+                    out.append((s, self.ev1(e.body, s)))
+                elif z3.is_false(ct):
+                    out.append((s, self.ev1(e.orelse, s)))
+                else:
+                    out.append((s, ite_val(ct, self.ev1(e.body, s), self.ev1(e.orelse, s))))
                 continue
             if z3.is_true(ct):
                 out += self.ev(e.body, s)
@@ -566,10 +596,12 @@ class Engine:
     def ev_BoolOp(self, e, st):
         is_and = isinstance(e.op, ast.And)
         if self.spec_mode:
-            vals = [self.ev1(v, st) for v in e.values]
-            if all(isinstance(v, VBool) for v in vals):
-                return [(st, VBool(z3.And(*[v.t for v in vals]) if is_and else z3.Or(*[v.t for v in vals])))]
-            ts = [self.truth(st, v) for v in vals]
+            ts = []
+            for v in e.values:
+                t = self.truth(st, self.ev1(v, st))
+                if (is_and and z3.is_false(t)) or (not is_and and z3.is_true(t)):
+                    return [(st, VBool(not is_and))]
+                ts.append(t)
             return [(st, VBool(z3.And(*ts) if is_and else z3.Or(*ts)))]
         # code mode: short-circuit evaluation, value semantics
         outs = []
@@ -610,9 +642,10 @@ class Engine:
         out = []
         for s, v in self.ev(e.operand, st):
             if isinstance(e.op, ast.Not):
-                out.append((s, VBool(z3.Not(self.truth(s, v)))))
+                out.append((s, VBool(Not_(self.truth(s, v)))))
             elif isinstance(e.op, ast.USub):
-                out.append((s, VInt(-self.as_int(s, v, e))))
+                t = self.as_int(s, v, e)
+                out.append((s, VInt(z3.IntVal(-t.as_long()) if z3.is_int_value(t) else -t)))
             elif isinstance(e.op, ast.UAdd):
                 out.append((s, VInt(self.as_int(s, v, e))))
             else:
@@ -665,7 +698,7 @@ class Engine:
         if isinstance(op, ast.Eq):
             return self.eq_vals(st, a, b)
         if isinstance(op, ast.NotEq):
-            return z3.Not(self.eq_vals(st, a, b))
+            return Not_(self.eq_vals(st, a, b))
         if isinstance(op, (ast.Is, ast.IsNot)):
             a2, b2 = self.deref(st, a), self.deref(st, b)
             if isinstance(b2, VNone) or isinstance(a2, VNone):
@@ -683,10 +716,10 @@ class Engine:
                 r = z3.BoolVal(a2.py == b2.py)
             else:
                 raise Unsupported(f"`is` between {a2!r} and {b2!r}")
-            return r if isinstance(op, ast.Is) else z3.Not(r)
+            return r if isinstance(op, ast.Is) else Not_(r)
         if isinstance(op, (ast.In, ast.NotIn)):
             r = self.contains(st, b, a, node)
-            return r if isinstance(op, ast.In) else z3.Not(r)
+            return r if isinstance(op, ast.In) else Not_(r)
         x, y = self.as_int(st, a, node), self.as_int(st, b, node)
         if isinstance(op, ast.Lt):
             return x < y
